@@ -222,6 +222,8 @@ pub fn cache_run(inp: &str, out: &str) {
             }
             Err(_) => writeln!(wr, "{}", json!({"ev": "panic", "op": v})).unwrap(),
         }
+        // an operation that never returns must leave the earlier events on disk
+        wr.flush().unwrap();
     }
     wr.flush().unwrap();
 }
